@@ -54,6 +54,8 @@ def generate(seed, index, tier):
                             nsteps=rng.choice([2, 3, 3, 4]))
     P = h['project']
     n = proj.n_versions(P) - 1
+    purge_mode = 'vb' in P['apps'] and rng.random() < 0.25
+    vmax = max(1, n - 1) if purge_mode else n
     script = []
     v = rng.choice([0, 0, 1]) if n > 1 else 0
     script.append({'do': 'deploy', 'v': v})
@@ -61,22 +63,22 @@ def generate(seed, index, tier):
     steps = rng.randint(3, 8)
     for _ in range(steps):
         r = rng.random()
-        if r < 0.35 and v < n:
-            v = min(n, v + rng.choice([1, 1, 2]))
+        if r < 0.35 and v < vmax:
+            v = min(vmax, v + rng.choice([1, 1, 2]))
             script.append({'do': 'deploy', 'v': v})
             script.append({'do': 'run', 'driver': rng.choice(
                 ['command', 'command', 'api', 'migrate'])})
         elif r < 0.5:
             script.append({'do': 'run', 'driver': rng.choice(
                 ['command', 'api'])})           # no-op rerun (usually)
-        elif r < 0.65 and v < n:
-            v = min(n, v + 1)
+        elif r < 0.65 and v < vmax:
+            v = min(vmax, v + 1)
             script.append({'do': 'deploy', 'v': v})
             script.append({'do': 'run', 'driver': 'api',
                            'apps': [rng.choice(P['order'])]})
             script.append({'do': 'run', 'driver': 'command'})
-        elif r < 0.85 and v < n:
-            v = min(n, v + 1)
+        elif r < 0.85 and v < vmax:
+            v = min(vmax, v + 1)
             script.append({'do': 'deploy', 'v': v})
             script.append({'do': 'run', 'driver': 'command', 'fault': {
                 'kind': rng.choice(['sql_error', 'sql_error', 'crash']),
@@ -90,11 +92,22 @@ def generate(seed, index, tier):
             # the next upgrade must record it again (exactly once), and
             # nothing else twice
             script.append({'do': 'wipe_only', 'pick': rng.random()})
-            if v < n:
-                v = min(n, v + 1)
+            if v < vmax:
+                v = min(vmax, v + 1)
                 script.append({'do': 'deploy', 'v': v})
             script.append({'do': 'run', 'driver': 'command'})
     script.append({'do': 'run', 'driver': 'command'})
+    # an app leaves INSTALLED_APPS and is purged in the same run in which
+    # another app still has pending evolutions (two task classes in one
+    # evolve())
+    if purge_mode and v < n:
+        pending_vb = [j for j in range(v, n)
+                      if P['apps']['vb']['steps'][j]['evos']]
+        if pending_vb:
+            v2 = pending_vb[0] + 1
+            script.append({'do': 'deploy', 'v': v2, 'apps': ['vb']})
+            script.append({'do': 'run', 'driver': 'command', 'purge': True})
+            script.append({'do': 'run', 'driver': 'command'})
     h['script'] = script
     return h
 
@@ -142,6 +155,7 @@ def execute(scn):
     failed_persisted = {}
     failed_phase = {}
     wiped_unmarked = set()
+    active = list(P['order'])
     rows_loaded = False
     cur_v = None
     n_exec_runs = 0
@@ -151,8 +165,11 @@ def execute(scn):
         run_idx = 0
         for si, step in enumerate(scn['script']):
             if step['do'] == 'deploy':
-                proj.deploy(ws, P, step['v'], sts)
+                proj.deploy(ws, P, step['v'], sts, apps=step.get('apps'),
+                            clean=bool(step.get('apps')))
                 cur_v = step['v']
+                if step.get('apps'):
+                    active = list(step['apps'])
                 continue
             if step['do'] == 'wipe_only':
                 rows = prev['book'].get('django_evolution') or []
@@ -202,6 +219,9 @@ def execute(scn):
             if step['driver'] == 'api' and step.get('apps'):
                 labels = [proj.label_of(P, a, cur_v) for a in step['apps']]
                 r = ws.run('api', {'apps': labels}, **kw)
+            elif step.get('purge'):
+                r = ws.run('evolve', {'execute': True, 'purge': True}, **kw)
+                stats['purge_with_pending'] = 1
             else:
                 r = history.upgrade(ws, step['driver'], **kw)
             run_idx += 1
@@ -294,7 +314,7 @@ def execute(scn):
                     n_exec_runs += 1
                 # fresh install of an app: whole sequence recorded, none of
                 # it executed
-                for a in P['order']:
+                for a in active:
                     la = proj.label_of(P, a, cur_v)
                     was_known = la in (c03.stored_apps(prev) or {})
                     if la in created and not was_known:
